@@ -100,6 +100,13 @@ def gen_case(rng):
             atoms.append(idx)
             idx += 1
         res_atoms.append(atoms)
+        # the molecule's own virtual-site definitions (as a topology carries them): the site is one of the residue's atoms;
+        # the placed copy is a rigid image of the TEMPLATE, whatever the topology says about constructions
+        if len(atoms) >= 4 and rng.random() < 0.4:
+            sec, prm = rng.choice([('virtual_sites3', ['2', '0.5', '0.1']), ('virtual_sites3', ['3', '120', '0.15']),
+                                   ('virtual_sites3', ['4', '0.2', '0.3', '1.5']), ('virtual_sites3', ['1', '0.3', '0.3']),
+                                   ('virtual_sitesn', ['1'])])
+            molecule.add_interaction(sec, atoms=atoms[:4], parameters=prm)
     # residue graph: random tree, optionally one extra edge
     res_edges = []
     for r in range(1, nres):
